@@ -3,9 +3,8 @@ package engine
 import (
 	"bytes"
 	"context"
-	"encoding/base64"
-	"path"
 	"crypto/sha256"
+	"encoding/base64"
 	"encoding/hex"
 	"errors"
 	"fmt"
@@ -13,6 +12,7 @@ import (
 	"log/slog"
 	"net/http"
 	"net/url"
+	"path"
 	"regexp"
 	"runtime"
 	"runtime/debug"
@@ -47,64 +47,64 @@ type ReqSnap struct {
 
 // OResp is one response produced by the simulated origin.
 type OResp struct {
-	SID      int
-	Call     *UpCall
-	Res      int
-	PlanIdx  int
-	Plan     *RespPlan
-	Req      ReqSnap // what the origin saw
-	Status   int
-	Header   http.Header // as sent (incl. hop-by-hop)
-	Body     []byte
-	Is304    bool
-	TStart   time.Duration // upstream call entered
-	TResp    time.Duration // header handed to the cache
-	Complete bool          // the wire delivers the whole body (no fault)
-	Delivered bool         // ... and the reader has in fact been handed every byte
-	SeqResp  uint64
-	Version  int
-	VarKey   string
+	SID       int
+	Call      *UpCall
+	Res       int
+	PlanIdx   int
+	Plan      *RespPlan
+	Req       ReqSnap // what the origin saw
+	Status    int
+	Header    http.Header // as sent (incl. hop-by-hop)
+	Body      []byte
+	Is304     bool
+	TStart    time.Duration // upstream call entered
+	TResp     time.Duration // header handed to the cache
+	Complete  bool          // the wire delivers the whole body (no fault)
+	Delivered bool          // ... and the reader has in fact been handed every byte
+	SeqResp   uint64
+	Version   int
+	VarKey    string
 }
 
 // UpCall is one call of the upstream RoundTripper.
 type UpCall struct {
-	ID        int
-	Gor       string
-	Owner     string
-	OwnerOp   int
-	Fg        bool // on the client's own goroutine
-	SeqStart  uint64
-	SeqEnd    uint64
-	TStart    time.Duration
-	TEnd      time.Duration
-	Req       ReqSnap
-	Res       int
-	Resp      *OResp
-	ErrKind   string // "" | "err" | "hang-cancel" | "ctx" | "reset-header" | "abort"
-	CancelAt  time.Duration
+	ID          int
+	Gor         string
+	Owner       string
+	OwnerOp     int
+	Fg          bool // on the client's own goroutine
+	SeqStart    uint64
+	SeqEnd      uint64
+	TStart      time.Duration
+	TEnd        time.Duration
+	Req         ReqSnap
+	Res         int
+	Resp        *OResp
+	ErrKind     string // "" | "err" | "hang-cancel" | "ctx" | "reset-header" | "abort"
+	CancelAt    time.Duration
 	HadDeadline bool
-	Deadline  time.Duration
-	Ended     bool
+	Deadline    time.Duration
+	Ended       bool
 }
 
 type StoreOp struct {
-	Idx     int
-	Seq     uint64
-	SeqRet  uint64
-	T       time.Duration
-	Kind    string
-	Key     string
-	Val     []byte // value passed to Set / returned by Get (after mutation)
-	SIDs    []int  // origin responses recognisable inside the value
-	IsIndex bool
-	Fault   string
-	Err     string
+	Idx      int
+	Seq      uint64
+	SeqRet   uint64
+	T        time.Duration
+	Kind     string
+	Key      string
+	Val      []byte // value passed to Set / returned by Get (after mutation)
+	SIDs     []int  // origin responses recognisable inside the value
+	IsIndex  bool
+	Fault    string
+	Err      string
 	NotExist bool
-	Applied bool
-	Gor     string
-	Owner   string
-	OwnerOp int
-	Fg      bool
+	Applied  bool
+	Gor      string
+	Owner    string
+	OwnerOp  int
+	Fg       bool
 }
 
 // Exch is one client operation (one RoundTrip).
@@ -146,48 +146,49 @@ type Run struct {
 	Scn *Scenario
 	Sim *kit.Sim
 
-	mu      sync.Mutex
-	Exchs   []*Exch
-	Calls   []*UpCall
-	OResps  []*OResp
-	Store   []*StoreOp
-	resCnt  []int
-	resVer  []int
-	resLM   []time.Duration
-	sidNext int
-	kindCnt map[string]int
-	diskCnt map[string]int
-	Live    map[string][]byte // model of the store contents as seen at the Conn seam
-	Faults  map[string]int    // fired fault kinds
-	Probes  map[string]int
+	mu          sync.Mutex
+	Exchs       []*Exch
+	Calls       []*UpCall
+	OResps      []*OResp
+	Store       []*StoreOp
+	resCnt      []int
+	resVer      []int
+	resLM       []time.Duration
+	sidNext     int
+	kindCnt     map[string]int
+	diskCnt     map[string]int
+	Live        map[string][]byte // model of the store contents as seen at the Conn seam
+	Faults      map[string]int    // fired fault kinds
+	Probes      map[string]int
 	clientsDone int
-	cur     map[string]*Exch // client name -> exchange in progress
-	rt      http.RoundTripper
-	inner   driver.Conn
-	logBuf  *bytes.Buffer
-	LeakStacks []string
-	Deadlock   string
-	Crashes    int
-	Restarts   int
-	VirtSpan   time.Duration
-	encKey     string
-	diskPlain  [][]byte
-	PlainHits  []string
-	plainWatch bool
+	cur         map[string]*Exch // client name -> exchange in progress
+	rt          http.RoundTripper
+	inner       driver.Conn
+	logBuf      *bytes.Buffer
+	LeakStacks  []string
+	Deadlock    string
+	Crashes     int
+	Restarts    int
+	VirtSpan    time.Duration
+	encKey      string
+	diskPlain   [][]byte
+	PlainHits   []string
+	plainWatch  bool
 	// cipherSeen: path -> digest of the last full content written to that path by an encrypting backend
 	// (temporary files keep their entry after being renamed, so every completed write is remembered)
 	cipherSeen map[string][32]byte
 	// store-level runs: phase currently executing, and whether an injected disk fault fired in the second one
 	curPhase      int
+	reqReuse      map[string]*reuseSlot
 	faultInPhase2 bool
-	OpenErr    string
-	DiskEnd    map[string][]byte
-	sconn      driver.Conn
-	SHists     []*SHist
-	Inconclusive int
-	Corrupted  []corruptRec
-	exchDone   int
-	Growth     []GrowthPoint
+	OpenErr       string
+	DiskEnd       map[string][]byte
+	sconn         driver.Conn
+	SHists        []*SHist
+	Inconclusive  int
+	Corrupted     []corruptRec
+	exchDone      int
+	Growth        []GrowthPoint
 }
 
 // GrowthPoint is the store footprint after N completed exchanges.
@@ -1017,6 +1018,12 @@ func (r *Run) admin(g *kit.Gor, op *Op) {
 
 type bodyPoison struct{ io.ReadCloser }
 
+// reuseSlot: a request value a client keeps sending, and what it contained when the client built it.
+type reuseSlot struct {
+	req  *http.Request
+	snap ReqSnap
+}
+
 func (r *Run) exchange(g *kit.Gor, ci, oi int, name string, op *Op) {
 	res := &r.Scn.Resources[op.Res%len(r.Scn.Resources)]
 	method := op.Method
@@ -1036,18 +1043,41 @@ func (r *Run) exchange(g *kit.Gor, ci, oi int, name string, op *Op) {
 		}
 		defer cancel()
 	}
-	req, err := http.NewRequestWithContext(ctx, method, BuildURL(res, op.Spelling), nil)
+	// a polling client sends one and the same request value again and again; what it means to send is what
+	// it built the first time, whatever the transport may have done to the value in between
+	reuseKey := ""
+	if op.CancelNs == 0 && op.Cond == "" && !op.Poison {
+		reuseKey = fmt.Sprintf("%s|%s|%d|%d|%s|%v|%v", name, method, op.Res, op.Spelling, op.CC, op.Hdr, op.Range)
+	}
+	var reused *reuseSlot
+	if op.Reuse && reuseKey != "" {
+		r.mu.Lock()
+		reused = r.reqReuse[reuseKey]
+		r.mu.Unlock()
+	}
+	var req *http.Request
+	var err error
+	if reused != nil {
+		req = reused.req
+		r.probe("request-value-reused")
+	} else {
+		req, err = http.NewRequestWithContext(ctx, method, BuildURL(res, op.Spelling), nil)
+	}
 	if err != nil {
 		r.Sim.Event(g, "client.badreq", err.Error())
 		return
 	}
-	if op.CC != "" {
+	if reused != nil {
+		// headers were set when the value was built
+	} else if op.CC != "" {
 		req.Header.Set("Cache-Control", op.CC)
 	}
 	for _, kv := range op.Hdr {
-		req.Header.Add(kv[0], kv[1])
+		if reused == nil {
+			req.Header.Add(kv[0], kv[1])
+		}
 	}
-	if op.Range {
+	if op.Range && reused == nil {
 		req.Header.Set("Range", "bytes=0-9")
 	}
 	switch op.Cond {
@@ -1061,6 +1091,16 @@ func (r *Run) exchange(g *kit.Gor, ci, oi int, name string, op *Op) {
 		req.Header.Set("If-Modified-Since", r.Sim.Epoch0.Add(r.Sim.Now()).UTC().Format(http.TimeFormat))
 	}
 	e := &Exch{Client: ci, OpIdx: oi, Op: op, Name: name, Req: snapReq(req), TInv: r.Sim.Now(), Epoch: r.Sim.Epoch()}
+	if reused != nil {
+		e.Req = reused.snap
+	} else if reuseKey != "" {
+		r.mu.Lock()
+		if r.reqReuse == nil {
+			r.reqReuse = map[string]*reuseSlot{}
+		}
+		r.reqReuse[reuseKey] = &reuseSlot{req: req, snap: e.Req}
+		r.mu.Unlock()
+	}
 	r.mu.Lock()
 	r.Exchs = append(r.Exchs, e)
 	r.cur[name] = e
